@@ -761,8 +761,20 @@ pub fn check(check: &str, tier: Tier) -> i32 {
         // the limit for a solo case is generous for timeouts that were met once already
         let only_first = 3usize;
         let mut attributed_n = 0usize;
+        let mut solo: Option<Worker> = None;
         for c in &cases {
-            match run_case_in_child(ctx_args, c) {
+            // one child serves consecutive cases until one of them kills it
+            if solo.is_none() {
+                solo = Worker::spawn(ctx_args.0, ctx_args.1, ctx_args.2).ok();
+            }
+            let outcome = match solo.as_mut() {
+                Some(w) => run_case_on(w, c),
+                None => Err(Death::Harness("cannot spawn".into())),
+            };
+            if outcome.is_err() {
+                solo = None;
+            }
+            match outcome {
                 Ok(mut r) => {
                     for f in r.findings.drain(..) {
                         agg.findings.push((unit, f, Some(c.to_json())));
